@@ -106,6 +106,25 @@ def _load_impl():
             r, self.pending = self.pending, None
             return r
 
+    class VecuTransport(GraphTransport, scheme="vecu"):
+        """gallia's own virtual ECU (RandomUDSServer behind UDSServerTransport.handle_request) as the ECU"""
+
+        def __init__(self, target, server):
+            super().__init__(target, {}, "p")
+            from gallia.services.uds.server import UDSServerTransport
+
+            self.server = server
+            self.st = UDSServerTransport(server, target)
+
+        async def write(self, data, timeout=None, tags=None):
+            if len(self.log) >= REQ_CAP:
+                raise TooManyRequests()
+            self.log.append((data.hex(), int(self.server.state.session), self.in_recover))
+            r, _ = await self.st.handle_request(data)
+            self.pending = r
+            self.cur = int(self.server.state.session)
+            return len(data)
+
     class DBStub:
         def __init__(self):
             self.rows = []
@@ -114,8 +133,43 @@ def _load_impl():
             self.rows.append((int(destination), [int(x) for x in steps]))
 
     _impl.update(SessionsScanner=SessionsScanner, SessionsScannerConfig=SessionsScannerConfig, ECU=ECU,
-                 GraphTransport=GraphTransport, TargetURI=TargetURI, DBStub=DBStub)
+                 GraphTransport=GraphTransport, VecuTransport=VecuTransport, TargetURI=TargetURI, DBStub=DBStub)
     return _impl
+
+
+def make_vecu(seed, p_session):
+    from gallia.services.uds.server import RandomUDSServer
+
+    srv = RandomUDSServer(seed, RandomUDSServer.RandomnessParameters(p_session=p_session))
+    srv.randomize()
+    return srv
+
+
+def vecu_graph(seed, p_session):
+    """the vECU's session graph, read off by asking the server `10 u` in every session it has"""
+    _load_impl()
+    from gallia.services.uds.core import service
+
+    srv = make_vecu(seed, p_session)
+
+    async def probe():
+        g = {}
+        for p in sorted(srv.services):
+            for u in range(1, 0x80):
+                srv.state.reset()
+                srv.state.session = p
+                r = await srv.respond(service.DiagnosticSessionControlRequest(u))
+                if r is None:
+                    g[(p, u)] = "s"
+                elif isinstance(r, service.NegativeResponse):
+                    if int(r.response_code) != 0x12:
+                        g[(p, u)] = f"n{int(r.response_code)}"
+                else:
+                    g[(p, u)] = "p"
+        return g
+
+    g, _ = vrun(probe())
+    return g
 
 
 def parse_edges(case):
@@ -132,7 +186,10 @@ def run_impl(case):
     sc.config = cfg
     sc.result = []
     sc.db_handler = m["DBStub"]()
-    tr = m["GraphTransport"](m["TargetURI"]("graph://ecu"), parse_edges(case), case["rst"])
+    if "vecu" in case:
+        tr = m["VecuTransport"](m["TargetURI"]("vecu://ecu"), make_vecu(*case["vecu"]))
+    else:
+        tr = m["GraphTransport"](m["TargetURI"]("graph://ecu"), parse_edges(case), case["rst"])
     sc.ecu = m["ECU"](tr, timeout=2.0, max_retry=case["max_retry"])
     orig_recover = sc._recover_stack
 
@@ -460,6 +517,8 @@ def shrink(ctx, case, cls):
         for x in cur["skip"]:
             cands.append({**cur, "skip": [y for y in cur["skip"] if y != x]})
         for k in sorted(cur["g"], key=lambda k: tuple(map(int, k.split(">")))):
+            if "vecu" in cur:
+                break  # the graph belongs to the vECU seed
             cands.append({**cur, "g": {a: b for a, b in cur["g"].items() if a != k}})
         for c in cands:
             budget -= 1
@@ -473,6 +532,9 @@ def shrink(ctx, case, cls):
 
 
 def case_key(case):
+    if "vecu" in case:
+        return (f"vecu={case['vecu'][0]}/{case['vecu'][1]};d={case['depth']};skip={_csv(case['skip'])};"
+                f"th={int(case['thorough'])};hk={int(case['hooks'])};mr={case['max_retry']}")
     return (f"d={case['depth']};skip={_csv(case['skip'])};th={int(case['thorough'])};rs={case['reset']};"
             f"hk={int(case['hooks'])};mr={case['max_retry']};rst={case['rst']};g={_edges_str(case)}")
 
@@ -525,6 +587,19 @@ def run(ctx):
     for _ in range(ctx.pick(450, 6000)):
         c, label = rand_case(rng, ctx.widened)
         add(c, "random:" + label)
+
+    # 3. gallia's own virtual ECU (RandomUDSServer) as the ECU; the model gets the graph read off the server
+    for _ in range(ctx.pick(25, 400)):
+        vseed, p_s = rng.randrange(10 ** 6), rng.choice([0.05, 0.1, 0.2, 0.3])
+        g = vecu_graph(vseed, p_s)
+        ids = sorted({a for a, _ in g})
+        skip = [] if rng.random() < 0.6 else rng.sample(ids[1:] or [2], 1) + rng.sample(range(2, 0x80), rng.randint(0, 2))
+        c = mk_case(g, rng.choice([1, 2, 3, 4, 5]), skip, thorough=rng.random() < 0.3, hooks=rng.random() < 0.2,
+                    max_retry=rng.choice([0, 1]))
+        c["vecu"] = [vseed, p_s]
+        if c["thorough"] and n_walks(c, 40) > 40:
+            c["thorough"] = False
+        add(c, "vecu:RandomUDSServer")
 
     impls, models, specs = evaluate(ctx, cases, procs)
     seen_cls = {}
